@@ -1056,3 +1056,54 @@ Proof.
   - (* a negative count hands out nobody *)
     exfalso. apply Hh. unfold players. replace (Z.to_nat count) with 0%nat by lia. reflexivity.
 Qed.
+
+(* ---------- C19 at the level of the system: the first tables ---------- *)
+Lemma env_of_requests evs : (forall e, In e evs -> exists id ps, e = EvRequest id ps) ->
+  forall t, In t (env_of evs []) -> exists id, In (EvRequest id (snd t)) evs /\ fst t = id.
+Proof.
+  induction evs as [|e evs IH]; intros H t Ht; [contradiction|].
+  rewrite env_of_cons in Ht. destruct (H e (or_introl eq_refl)) as (id & ps & ->). cbn [apply_event] in Ht.
+  apply in_app_or in Ht as [Ht|[<-|[]]].
+  - destruct (IH (fun e' He' => H e' (or_intror He')) t Ht) as (id' & A & B). exists id'. split; [now right|exact B].
+  - exists id. split; [now left|reflexivity].
+Qed.
+
+(* when no table is open and every living player is waiting, the tables opened by a registration (or by the
+   start of the competition) all get at least the minimum initial number of players *)
+Theorem first_tables_get_the_minimum st players :
+  quiet st -> r_tc (rs_reg st) = 0 -> r_tables (rs_reg st) = [] ->
+  r_pc (rs_reg st) = zn (length (r_queue (rs_reg st))) -> 0 < r_max (rs_reg st) -> 0 < r_min (rs_reg st) ->
+  r_status (rs_reg st) <> 2 ->
+  let st' := fst (add_players st players) in
+  forall t, In t (env_of (rs_ev st') []) -> r_min (rs_reg st) <= zn (length (snd t)).
+Proof.
+  intros Hq Htc Htabs Hpc Hmax Hmin Hst st' t Ht.
+  unfold st', add_players in Ht. replace (r_status (rs_reg st) =? 2) with false in Ht by (symmetry; apply Z.eqb_neq; exact Hst).
+  cbn [fst] in Ht.
+  set (r1 := update_requirements (set_pc (rs_reg st) (r_pc (rs_reg st) + zn (length players)))) in *.
+  assert (Hr1 : r1 = set_pc (rs_reg st) (r_pc (rs_reg st) + zn (length players)) \/
+                r_tables r1 = [] /\ r_tc r1 = 0 /\ r_queue r1 = r_queue (rs_reg st) /\ r_pc r1 = r_pc (rs_reg st) + zn (length players) /\
+                r_max r1 = r_max (rs_reg st) /\ r_min r1 = r_min (rs_reg st) /\ r_status r1 = r_status (rs_reg st)).
+  { unfold r1, update_requirements. destruct (_ =? _); [right|left; reflexivity]. cbn. rewrite Htabs. cbn. auto 10. }
+  assert (F : r_tables r1 = [] /\ r_tc r1 = 0 /\ r_queue r1 = r_queue (rs_reg st) /\ r_pc r1 = r_pc (rs_reg st) + zn (length players) /\
+              r_max r1 = r_max (rs_reg st) /\ r_min r1 = r_min (rs_reg st) /\ r_status r1 = r_status (rs_reg st)).
+  { destruct Hr1 as [->|H]; [cbn; auto 10|exact H]. }
+  destruct F as (T1 & T2 & Q1 & P1 & M1 & N1 & S1).
+  unfold enter_queue in Ht. cbn [with_reg rs_reg] in Ht. rewrite S1 in Ht.
+  destruct (r_status (rs_reg st) =? 0); [cbn [with_reg rs_ev] in Ht; rewrite Hq in Ht; contradiction|].
+  set (st1 := with_reg (with_reg st r1) (set_queue r1 (r_queue r1 ++ players))) in *.
+  assert (E1 : rs_ev st1 = []) by exact Hq.
+  assert (Hreq : forall e, In e (rs_ev (drain st1)) -> exists id ps, e = EvRequest id ps /\ r_min (rs_reg st) <= zn (length ps)).
+  { intros e He. unfold drain in He. cbn [st1 with_reg rs_reg set_queue r_tc r_min r_queue] in He. rewrite T2 in He. cbn [Z.eqb andb Z.ltb Z.compare] in He.
+    destruct (r_min r1 <=? zn (length (r_queue r1 ++ players))); [|rewrite E1 in He; contradiction].
+    destruct (initial_tables_get_the_minimum st1) with (e := e) as [H|H].
+    - exact T2.
+    - cbn [st1 with_reg rs_reg set_queue r_pc r_queue]. rewrite P1, Q1, app_length, Hpc. unfold zn. lia.
+    - cbn [st1 with_reg rs_reg set_queue r_max]. rewrite M1. exact Hmax.
+    - cbn [st1 with_reg rs_reg set_queue r_min]. rewrite N1. exact Hmin.
+    - exact He.
+    - rewrite E1 in H. contradiction.
+    - destruct H as (id & ps & A & B). exists id, ps. split; [exact A|]. cbn [st1 with_reg rs_reg set_queue r_min] in B. rewrite N1 in B. exact B. }
+  destruct (env_of_requests (rs_ev (drain st1)) (fun e He => let '(ex_intro _ id (ex_intro _ ps (conj A _))) := Hreq e He in ex_intro _ id (ex_intro _ ps A)) t Ht) as (id & Hin & _).
+  destruct (Hreq _ Hin) as (id' & ps' & E & B). injection E as _ <-. exact B.
+Qed.
